@@ -118,7 +118,12 @@ def class_header(cls, backend, u, extra_methods=()):
     body = "class @CLS@ {\n public:\n  int _id = 0;\n"
     if any(m.get("mode") in ("enum", "enumarg") for m in methods):
         body += "  enum Color { Red = 0, Blue = 1 };\n"
-    body += "\n".join(_method_cpp(m, backend, u) for m in methods)
+    body += "\n".join(_method_cpp(m, backend, u) for m in methods if m.get("mode") != "moment")
+    if any(m.get("mode") == "moment" for m in methods) and backend == "atlas":
+        # the templated accessor of xAOD::Jet: a float moment or a vector<double> moment, by name
+        body += ('\n  template <class T> T getAttribute(const std::string &n) const {\n'
+                 '    if constexpr (std::is_same<T, float>::value) return static_cast<float>(vp::num(_id, n.c_str()));\n'
+                 '    else { static_assert(std::is_same<T, std::vector<double>>::value, "moment type"); return vp::numvec<double>(_id, n.c_str()); }\n  }')
     # a class that is itself a singleton collection is retrieved directly from the store
     for coll in u["singletons"]:
         if u["collClass"][coll] == cls and b["colls"][coll]["py"]:
